@@ -75,7 +75,7 @@ def r17_1(ctx):
     r = RuleResult("R17.1", "K7", "every background task is owned or provably self-terminating")
     table = json.load(open(os.path.join(VERIF, "tables", "spawns.json")))
     sites = _spawn_sites(ctx)
-    r.need("spawn call sites", len(sites), 22)
+    r.need("spawn call sites", len(sites), 21)
     used = set()
     for b, bi, t, k in sites:
         key = "%s#%d" % (b.name, k)
